@@ -68,6 +68,7 @@ func checkC15(w *World, r *Report) {
 	}
 	algTableRule(w, r, "C15.algtable")
 	algLookupRule(w, r, "C15.alglookup")
+	certFirstBlockRule(w, r, "C15.args")
 	loopVarRule(w, r, "C15.loopvar", "cfesignature")
 	pub := w.Func("x/cfesignature/keeper.msgServer.PublishReferencePayloadLink")
 	ver := w.Func("x/cfesignature/keeper.Keeper.VerifySignature")
